@@ -271,4 +271,93 @@ theorem markChar_quoted (ms : List (Char × Bool)) (h : ∀ m ∈ ms, m.2 = true
     simp only [List.map_cons, ih (fun x hx => h x (by simp [hx]))]
     simp [markChar, h m (by simp)]
 
+/-! ## the index loop of `apply_escapes` = the recursion -/
+
+theorem applyEscapesAux_true (b : AttrChar) (t : List AttrChar) :
+    applyEscapesAux true (b :: t) = applyEscapesAux false ({ b with isQuoted := true } :: t) := by
+  simp [applyEscapesAux]
+
+theorem escLoop (t : List AttrChar) : ∀ (pre : List AttrChar) (a : AttrChar),
+    (List.range' (pre.length + 1) t.length).foldl escStep (pre ++ a :: t) = pre ++ applyEscapesAux false (a :: t) := by
+  induction t with
+  | nil => intro pre a; simp [applyEscapesAux]
+  | cons b t' ih =>
+    intro pre a
+    have hr : List.range' (pre.length + 1) (b :: t').length =
+        (pre.length + 1) :: List.range' (pre.length + 1 + 1) t'.length := by
+      simp [List.range'_succ]
+    rw [hr, List.foldl_cons]
+    have ha : (pre ++ a :: b :: t')[pre.length + 1 - 1]? = some a := by simp
+    have hb : (pre ++ a :: b :: t')[pre.length + 1]? = some b := by
+      rw [List.getElem?_append_right (by omega)]; simp
+    by_cases hc : a.value = '\\' ∧ a.isQuoting = false ∧ a.isQuoted = false
+    · have hs : escStep (pre ++ a :: b :: t') (pre.length + 1) =
+          (pre ++ [{ a with isQuoting := true }]) ++ { b with isQuoted := true } :: t' := by
+        unfold escStep
+        rw [ha, hb]
+        simp only [if_pos hc]
+        simp
+      have := ih (pre ++ [{ a with isQuoting := true }]) { b with isQuoted := true }
+      simp only [List.length_append, List.length_cons, List.length_nil] at this
+      rw [hs, this]
+      have hc' : a.value = '\\' ∧ a.isQuoting = false ∧ a.isQuoted = false ∧ b :: t' ≠ [] :=
+        ⟨hc.1, hc.2.1, hc.2.2, by simp⟩
+      have e : applyEscapesAux false (a :: b :: t') =
+          { a with isQuoting := true } :: applyEscapesAux true (b :: t') := by
+        rw [applyEscapesAux]; simp only [Bool.false_eq_true, if_false, if_pos hc']
+      rw [e, applyEscapesAux_true]
+      simp
+    · have hs : escStep (pre ++ a :: b :: t') (pre.length + 1) = (pre ++ [a]) ++ b :: t' := by
+        unfold escStep
+        rw [ha, hb]
+        simp only [if_neg hc]
+        simp
+      have := ih (pre ++ [a]) b
+      simp only [List.length_append, List.length_cons, List.length_nil] at this
+      rw [hs, this]
+      have hc' : ¬ (a.value = '\\' ∧ a.isQuoting = false ∧ a.isQuoted = false ∧ b :: t' ≠ []) := by
+        intro h; exact hc ⟨h.1, h.2.1, h.2.2.1⟩
+      have e : applyEscapesAux false (a :: b :: t') = a :: applyEscapesAux false (b :: t') := by
+        rw [applyEscapesAux]; simp only [Bool.false_eq_true, if_false, if_neg hc']
+      rw [e]
+      simp
+
+/-- the index loop of the Rust code = the recursion of the model -/
+theorem applyEscapesIdx_eq (cs : List AttrChar) : applyEscapesIdx cs = applyEscapes cs := by
+  cases cs with
+  | nil => simp [applyEscapesIdx, applyEscapes, applyEscapesAux]
+  | cons a t =>
+    have := escLoop t [] a
+    simpa [applyEscapesIdx, applyEscapes] using this
+
+/-! ## `escapeMarked` on a quoted prefix and on a wholly unquoted text -/
+
+theorem escapeMarked_unquoted : ∀ p : List Char, escapeMarked (p.map fun c => (c, false)) = escapeChars p
+  | [] => rfl
+  | [c] => by simp [escapeMarked, escapeChars, markChar]
+  | c :: d :: t => by
+    have ih1 := escapeMarked_unquoted t
+    have ih2 := escapeMarked_unquoted (d :: t)
+    by_cases hc : c = '\\'
+    · simp [escapeMarked, escapeChars, hc, ih1]
+    · simp only [List.map_cons] at ih2 ⊢
+      rw [escapeMarked]
+      simp [escapeChars, hc, markChar, ih2]
+
+theorem escapeMarked_quoted_prefix (q : List Char) (ms : List (Char × Bool)) :
+    escapeMarked ((q.map fun c => (c, true)) ++ ms) = q.map .literal ++ escapeMarked ms := by
+  induction q with
+  | nil => rfl
+  | cons c t ih =>
+    cases ht : (t.map fun c => (c, true)) ++ ms with
+    | nil =>
+      have : t = [] ∧ ms = [] := by simpa using ht
+      obtain ⟨rfl, rfl⟩ := this
+      simp [escapeMarked, markChar]
+    | cons d r =>
+      rw [ht] at ih
+      simp only [List.map_cons, List.cons_append, ht]
+      rw [escapeMarked]
+      simp [markChar, ih]
+
 end YashModel.Fnmatch
